@@ -1204,3 +1204,35 @@ Proof.
     destruct (find_first c_lp r); cbn [option_map]; discriminate.
   - intros [r ->]. reflexivity.
 Qed.
+
+(* ---------- more non-vacuity witnesses ---------- *)
+Definition ex_name : bytes := [102; 111; 111]%N.      (* "foo" *)
+Lemma ex_unknown_name :
+  ~ In c_rp ex_name /\ ~ In c_colon ex_name /\ attr_of_name ex_name = None /\
+  ~ In c_rp (fspec (Some [62; 53]%N)) /\
+  generate (print ex_pat ++ [c_pct; c_lp] ++ ex_name ++ fspec (Some [62; 53]%N) ++ [c_rp] ++ [33%N])
+    = GErr (GE_unknown ex_name) /\
+  generate (print ex_pat ++ [c_pct; c_lp] ++ ex_name) = GErr GE_unterminated.
+Proof.
+  repeat split; try (apply notin_b; reflexivity); vm_compute; reflexivity.
+Qed.
+
+Definition ex_dir : bytes := [47; 97; 47]%N.          (* "/a/" *)
+Definition ex_fname : bytes := [120; 46; 99]%N.       (* "x.c" *)
+Definition ex_line : bytes := [49; 50]%N.             (* "12" *)
+Lemma ex_mm :
+  (ex_dir = [] \/ exists d, ex_dir = d ++ [c_slash]) /\
+  ~ In c_slash ex_fname /\ ~ In c_slash ex_line /\ ~ In c_colon ex_line /\
+  (N.of_nat (length (ex_dir ++ ex_fname ++ [c_colon] ++ ex_line)) < 65536)%N /\
+  mm_file_name (ex_dir ++ ex_fname ++ [c_colon] ++ ex_line) = ex_fname.
+Proof.
+  split; [right; exists [47; 97]%N; reflexivity|].
+  repeat split; try (apply notin_b; reflexivity); reflexivity.
+Qed.
+
+Lemma ex_multiline :
+  nargs_empty None = true /\
+  dispatch_msgs true None [97; 10; 10; 98; 10]%N = Some [[97%N]; []; [98%N]] /\
+  dispatch_msgs false None [97; 10; 10]%N = Some [[97; 10]%N] /\
+  dispatch_msgs true (Some [([107%N], [118%N])]) [97; 10; 98]%N = Some [[97; 10; 98]%N].
+Proof. repeat split. Qed.
